@@ -627,6 +627,8 @@ class ProgramSet(NamedItem):
             if short_name.lower() == "all":
                 raise Exception('A program was named "all", which is a reserved keyword and cannot be used as a program name')
             long_name = row[1].value.strip()
+            if short_name in self.programs:
+                raise Exception('Program "%s" appears more than once on the targeting sheet - program names must be unique' % (short_name))
 
             self.programs[short_name] = Program(name=short_name, label=long_name, target_pops=target_pops, target_comps=target_comps)
 
